@@ -20,12 +20,13 @@ import struct
 
 from mc import core, dsl, kern, simkernel
 from ebpfcat.arraymap import ArrayMap, PerCPUArrayMap
-from ebpfcat.ebpf import EBPF, SubProgram
+from ebpfcat.ebpf import EBPF, MemoryMap, SubProgram
 
 PROP = "C08"
 LEVEL = "model_checking"
 RULE = ("cases = all multisets of (format, place) declarations up to the "
-        "size bound, formats {B H I Q b h i q x 2H 3B 5I 64I}, places {base "
+        "size bound, formats {B H I Q b h i q x 2H 3B 5I 64I} (plus, in "
+        "sets of <= 2, the byte-order-prefixed >H >q <I !i >B <Q), places {base "
         "class, derived class, derived re-declaration of a base name, "
         "subprogram class A (two instances), subprogram class B}; each is "
         "laid out by the real collect(), checked for disjointness and run "
@@ -39,20 +40,27 @@ FORMATS = ["B", "H", "I", "Q", "b", "h", "i", "q", "x",
            "2H", "3B", "5I", "64I"]
 PLACES = ["base", "derived", "redecl", "subA", "subB"]
 PAIRS = [(f, p) for p in PLACES for f in FORMATS]
+# formats carrying their own byte order: a smaller family of its own
+XFORMATS = [">H", ">q", "<I", "!i", ">B", "<Q"]
 
 KF_REDECL = "C08-redeclared-name-allocated-twice"
 HDR = 16        # packet bytes before the in/out areas (XDP needs >= 14)
 
 
+def sfmt(fmt):
+    """struct format: formats with their own byte-order prefix keep it"""
+    return fmt if fmt[0] in "<>!" else "<" + fmt
+
+
 def fsize(fmt):
-    return 8 if fmt == "x" else struct.calcsize("<" + fmt)
+    return 8 if fmt == "x" else struct.calcsize(sfmt(fmt))
 
 
 def elems(fmt):
     """-> (count, element format) of a format"""
     if fmt == "x":
         return 1, "q"
-    n = fmt[:-1]
+    n = fmt.lstrip("<>!")[:-1]
     return (int(n) if n else 1), fmt[-1]
 
 
@@ -63,7 +71,7 @@ def encode(fmt, value):
         return struct.pack("<q", round(value * 100000))
     if not isinstance(value, tuple):
         value = (value,)
-    return struct.pack("<" + fmt, *value)
+    return struct.pack(sfmt(fmt), *value)
 
 
 def decode(fmt, raw):
@@ -71,7 +79,7 @@ def decode(fmt, raw):
     'x' -> decimal (integer / 100000)"""
     if fmt == "x":
         return struct.unpack("<q", raw)[0] / 100000
-    v = struct.unpack("<" + fmt, raw)
+    v = struct.unpack(sfmt(fmt), raw)
     return v[0] if len(v) == 1 else v
 
 
@@ -203,7 +211,10 @@ class Case:
                 off = base + self.off[(s.oname, s.name)]
                 n, ef = elems(s.fmt)
                 if n == 1:
-                    mm = getattr(e, "m" + s.fmt)
+                    # the packet copy is declared with the same format, so
+                    # packet bytes and map bytes are the same encoding
+                    mm = MemoryMap(e, s.fmt) if s.fmt[0] in "<>!" \
+                        else getattr(e, "m" + s.fmt)
                     if direction == "out":
                         mm[e.r9 + off] = getattr(s.owner, s.name)
                     else:
@@ -630,8 +641,9 @@ def percpu_configs(ctx):
 
 def work(item, res):
     kind, k, prefix, seed, kern_every, extra = item
-    for n, layout in enumerate(layouts_with_prefix(k, prefix)):
-        if kind == "array":
+    for n, layout in enumerate(extra if kind == "arrayx"
+                               else layouts_with_prefix(k, prefix)):
+        if kind in ("array", "arrayx"):
             res.count("evaluations")
             st, obs = run_array(layout, seed, "sim", res)
             res.outcomes.add(st)
@@ -697,6 +709,16 @@ def run(ctx):
         for p in prefixes(k):
             items.append(("array", k, p, ctx.seed, 97 if ctx.quick else 499,
                           None))
+    # byte-order-prefixed formats: alone, in pairs, and next to plain ones
+    xf = XFORMATS[:3] if ctx.quick else XFORMATS
+    xp = [(f, p) for p in PLACES for f in xf]
+    plain = [(f, p) for p in PLACES for f in ("B", "I", "x", "3B")]
+    lays = [(a,) for a in xp] + \
+        [lay for a in xp for b in xp + plain for lay in [(a, b)]
+         if valid(lay)]
+    for i in range(0, len(lays), 40):
+        items.append(("arrayx", 2, (), ctx.seed, 29 if ctx.quick else 97,
+                      lays[i:i + 40]))
     pc = percpu_configs(ctx)
     for k in range(1, pmax + 1):
         for p in prefixes(k):
